@@ -392,7 +392,7 @@ MUTATIONS += [
 RSF = "crates/core/src/commands/restore.rs"
 MUTATIONS += [
     dict(id="C14-write-sparse-skip-unconditional", prop="C14", file=RSF, old="                                let skip = is_sparse\n                                    && dest\n                                        .read_at(path, start, size)\n                                        .is_ok_and(|old| old.iter().all(|&b| b == 0));\n", new="                                let skip = is_sparse;\n"),
-    dict(id="C14-write-no-alloc-reset", prop="C14", file=RSF, old="                                    dest.set_length(path, filesize).unwrap();\n                                    sizes_guard[file_idx] = 0;\n", new="                                    dest.set_length(path, filesize).unwrap();\n"),
+    # (C14-write-no-alloc-reset moved to HARMLESS: without the reset the file is re-allocated to the SAME length before every blob, which keeps its content)
     dict(id="C14-write-at-zero-offset", prop="C14", file=RSF, old="                                    dest.write_at(path, start, &data).unwrap();\n                                }\n                                p.inc(size);", new="                                    dest.write_at(path, 0, &data).unwrap();\n                                }\n                                p.inc(size);"),
     dict(id="C14-write-alloc-skipped", prop="C14", file=RSF, old="                                if filesize > 0 {\n                                    dest.set_length(path, filesize).unwrap();", new="                                if filesize > 1 {\n                                    dest.set_length(path, filesize).unwrap();"),
     dict(id="C14-sparse-decision-no-means-yes", prop="C14", file=RSF, old="                            SparseRestore::No => false,", new="                            SparseRestore::No => true,"),
@@ -850,4 +850,10 @@ MUTATIONS += [
 MUTATIONS += [
     # copy does not walk the snapshots' trees at all when looking for the blobs to copy (only the root trees are copied)
     dict(id="C12-copy-walks-no-tree", prop="C12", file="crates/core/src/commands/copy.rs", old="    let mut tree_streamer = TreeStreamerOnce::new(be, index, snap_trees, p)?;", new="    let mut tree_streamer = TreeStreamerOnce::new(be, index, Vec::new(), p)?;"),
+]
+
+HARMLESS += [
+    # behaviour-preserving (found as an 'equivalent mutant' when the proof of restore_write_blob was made trigger-independent: it had
+    # only been "caught" by a brittle instantiation): re-allocating the file to the same length before every blob keeps its content
+    dict(id="H-C14-write-no-alloc-reset", prop="C14", file=RSF, old="                                    dest.set_length(path, filesize).unwrap();\n                                    sizes_guard[file_idx] = 0;\n", new="                                    dest.set_length(path, filesize).unwrap();\n"),
 ]
